@@ -73,7 +73,7 @@ theorem inRange_congr {w w' : World S σ} {src dst : NodeId} (hs : w'.pos src = 
     inRange w' src dst = inRange w src dst := by
   unfold inRange; rw [hs, hd, hr]
 
-theorem deliverTime_congr (cfg : Config S) {w w' : World S σ} (h : w'.loop.now = w.loop.now) :
+theorem deliverTime_congrM (cfg : Config S) {w w' : World S σ} (h : w'.loop.now = w.loop.now) :
     deliverTime cfg w' = deliverTime cfg w := by
   unfold deliverTime; rw [h]
 
